@@ -1,11 +1,9 @@
 #!/bin/bash
-# evaluate every delivered mutant under /tmp/mut/wt-*/MUTANTS/m* that has no result yet
-RES=/tmp/mut/results.jsonl
+# evaluate every delivered mutant under /tmp/mut/wt-*/MUTANTS/m* that has no result yet, 4 workers
+RES=${1:-/tmp/mut/results.jsonl}
 touch $RES
-for d in /tmp/mut/wt-*/MUTANTS/m*; do
-  [ -f "$d/patch.diff" ] || continue
-  grep -q "\"$d\"" $RES && continue
-  id=$(echo "$d" | sed -E 's#.*/wt-(C[0-9]+)[^/]*/MUTANTS/.*#\1#')
-  python3 /verif/tools/eval_mutant.py "$d" "$id" --confirm >> $RES 2>/tmp/mut/eval.err
-done
+ls -d /tmp/mut/wt-*/MUTANTS/m* | while read d; do [ -f "$d/patch.diff" ] && ! grep -q "\"$d\"" $RES && echo "$d"; done > /tmp/mut/todo.txt
+worker() { w=$1; n=0; while read d; do n=$((n+1)); [ $((n % 4)) -eq $w ] || continue; id=$(echo "$d" | sed -E 's#.*/wt-(C[0-9]+)[^/]*/MUTANTS/.*#\1#'); HOOTMUT_TARGET=/tmp/hootmut-target-$w VERIF_JOBS=6 python3 /verif/tools/eval_mutant.py "$d" "$id" --confirm >> $RES.$w 2>>/tmp/mut/eval.err; done < /tmp/mut/todo.txt; }
+for w in 0 1 2 3; do worker $w & done; wait
+cat $RES.0 $RES.1 $RES.2 $RES.3 >> $RES 2>/dev/null; rm -f $RES.0 $RES.1 $RES.2 $RES.3
 echo done
